@@ -268,6 +268,16 @@ where
                     }
                 }
 
+                // If not even the first grapheme fits on an otherwise empty line (a
+                // double-width character and a text width of 2) no progress is possible.
+                // With a line limit the loop ends there; without one it would never end, so
+                // give up wrapping: what is left is added to the last line and truncated.
+                if byte_split_pos == 0 && line_segments.is_empty() && max_lines == 0 {
+                    stack.push((style, text));
+                    curr_line = CurrLine::reset();
+                    break Stop::LineLimit;
+                }
+
                 let this_line = &text[..byte_split_pos];
                 line_segments.push((style, this_line));
                 &text[byte_split_pos..]
